@@ -148,6 +148,12 @@ func funcNud(p *parser, t *token) *token {
 }
 
 func returnNud(p *parser, t *token) *token {
+	// as in Go, a newline after "return" ends the statement (that is where Go inserts
+	// the semicolon): the operands start on the line of the keyword, and whatever
+	// follows a bare return is the next (unreachable) statement, not its operand
+	if p.Token.Pos.Line != t.Pos.Line {
+		return t
+	}
 	for p.Token.Symbol != "}" && p.Token.Symbol != ";" && p.Token.Symbol != "case" && p.Token.Symbol != "default" {
 		t.Append(p.Expression(commaBP))
 		if p.Token.Symbol != "," {
